@@ -60,12 +60,17 @@ extern DataCommMode enforcedDataMode;
 template <typename DataType>
 DataCommMode get_data_mode(size_t num_selected, size_t num_total) {
   DataCommMode data_mode = noData;
-  if (enforcedDataMode != noData) {
+  if (enforcedDataMode == onlyData) {
+    data_mode = onlyData;
+  } else if (num_selected == 0) {
+    // nothing to send: also under an enforced metadata mode, otherwise a
+    // header-only message goes out on every call and asynchronous execution
+    // never sees a quiet round
+    data_mode = noData;
+  } else if (enforcedDataMode != noData) {
     data_mode = enforcedDataMode;
   } else { // no enforced mode, so find an appropriate mode
-    if (num_selected == 0) {
-      data_mode = noData;
-    } else if (num_selected == num_total) {
+    if (num_selected == num_total) {
       data_mode = onlyData;
     } else {
       size_t bitset_alloc_size =
